@@ -431,6 +431,23 @@ func (env *Env) tr(x ast.Expr) *SVal {
 			}
 		}
 		env.fail(x, "unsupported index expression")
+	case *ast.TypeAssertExpr:
+		// x.(T): the value boxed in the interface (the clause states dyntype separately)
+		v := env.tr(n.X)
+		T := env.typeOf(n.Type)
+		if tv, ok := env.info.Types[n.Type]; ok {
+			T = tv.Type
+		}
+		if v.K != KIface || T == nil {
+			env.fail(x, "type assertion on a non-interface value")
+		}
+		if _, isPtr := T.Underlying().(*types.Pointer); isPtr {
+			return &SVal{K: KPtr, Typ: T, T: v.T}
+		}
+		if v.Inner != nil && types.Identical(v.Inner.Typ, T) {
+			return v.Inner
+		}
+		return e.load(env.state(), e.boxAddr(v.T, T))
 	case *ast.SliceExpr:
 		xv := env.tr(n.X)
 		var base, off, ln, cp *Term
